@@ -799,4 +799,170 @@ theorem bypass_breaks_rollback :
   revert this
   decide
 
+/-! ### Round h: every read of the public surface that hands out a Graph object -/
+
+/-- For every source of Graph objects (store-level `contexts` / `triples`, `ConjunctiveGraph.contexts`,
+    `.contexts(triple)`, `.quads`, `get_context` / `default_context` / `get_graph`, `Graph.resource`,
+    `Collection`, the namespace manager): every object handed out is bound to the wrapper, hence
+    (`handed_out_graphs_log`) every write through it is a step of the wrapper and is covered by the history
+    theorems.  (A `Graph(store=wrapper.store)` the caller builds himself is bound to the wrapped store by
+    construction: outside the statement, `bypass_breaks_rollback` shows what it does.) -/
+def Statement_every_source_hands_out_wrapper_graphs : Prop :=
+  ∀ (s : XW) (src : Source), src ∈ Source.all ∧ ∀ h ∈ handOut s src, h.2 = Bound.wrapper ∧
+    ∀ w : HWrite, ∃ o : XOp, s.writeVia h w = s.step o
+
+theorem every_source_hands_out_wrapper_graphs : Statement_every_source_hands_out_wrapper_graphs := by
+  intro s src
+  have hb : ∀ h ∈ handOut s src, h.2 = Bound.wrapper := by
+    intro h hh
+    cases src <;>
+      simp only [handOut, handOutContexts, handOutTriples, graphLayer, List.mem_map, List.mem_flatMap] at hh
+    all_goals first
+      | (obtain ⟨g, _, rfl⟩ := hh; rfl)
+      | (obtain ⟨tc, ⟨tc0, _, rfl⟩, hh2⟩ := hh
+         simp only [List.mem_map] at hh2
+         obtain ⟨g, _, rfl⟩ := hh2; rfl)
+      | (obtain ⟨t, _, g, _, rfl⟩ := hh; rfl)
+  refine ⟨by cases src <;> simp [Source.all], fun h hh => ⟨hb h hh, fun w => (handed_out_graphs_log s).2.2 h w (hb h hh)⟩⟩
+
+/-! ### Round h: transactions spanning `Graph.parse()` and SPARQL Update calls -/
+
+/-- the snapshot specification, with the effect of each request stated directly on the set of quads -/
+structure SpecU where
+  base : List Quad
+  cur : List Quad
+
+def SpecU.step (s : SpecU) : UCmd → SpecU
+  | .u (.parse qs) => { s with cur := qs.foldl sinsert s.cur }
+  | .u (.insertData qs) => { s with cur := qs.foldl sinsert s.cur }
+  | .u (.deleteData qs) => { s with cur := s.cur.filter (fun x => decide (x ∉ qs)) }
+  | .u (.deleteWhere p) => { s with cur := s.cur.filter (fun x => !p.matches x) }
+  | .u (.clear gr) => { s with cur := s.cur.filter (fun x => x.graph != gr) }
+  | .g o => { s with cur := o.expand.foldl curStepX s.cur }
+  | .commit => { s with base := s.cur }
+  | .rollback => { s with cur := s.base }
+
+def SpecU.run (s : SpecU) (cs : List UCmd) : SpecU := cs.foldl SpecU.step s
+
+def UCmd.wellNamed : UCmd → Bool
+  | .u (.clear gr) => truthy gr
+  | .g o => o.wellNamed
+  | _ => true
+
+/-- Every history of parser runs, SPARQL Update requests (INSERT DATA, DELETE DATA, DELETE WHERE — whose
+    calls depend on the content at that moment —, CLEAR GRAPH) and graph-level operations, with commit /
+    rollback anywhere: the wrapped store holds what the snapshot specification says. -/
+def Statement_update_history_refines_spec : Prop :=
+  ∀ (m0 : Mem) (cs : List UCmd), m0.cur.Nodup → (∀ c ∈ cs, c.wellNamed = true) →
+    SetEq (XW.urun ⟨m0, []⟩ cs).m.cur (SpecU.run ⟨m0.cur, m0.cur⟩ cs).cur
+
+structure USim (s : XW) (base cur : List Quad) : Prop where
+  cur : SetEq s.m.cur cur
+  inv : Inv base s.m.cur s.log
+  nodup : s.m.cur.Nodup
+
+theorem xrun_ops (os : List XOp) : ∀ (s : XW), s.run (os.map .op) = os.foldl XW.step s := by
+  induction os with
+  | nil => intro s; rfl
+  | cons o os ih => intro s; simp only [List.map_cons, XW.run, List.foldl_cons] at ih ⊢; exact ih _
+
+theorem usim_ops {s : XW} {base c : List Quad} (h : USim s base c) (os : List XOp)
+    (hw : ∀ o ∈ os, o.wellNamed = true) : USim (os.foldl XW.step s) base (os.foldl curStepX c) := by
+  have hw' : ∀ x ∈ os.map XCmd.op, x.wellNamed = true := by
+    intro x hx
+    obtain ⟨o, ho, rfl⟩ := List.mem_map.mp hx
+    exact hw o ho
+  have h1 := simx_run (os.map .op) s ⟨base, c, s.m.b⟩ ⟨h.cur, h.inv, h.nodup, rfl⟩ hw'
+  have h2 := specx_run_ops os ⟨base, c, s.m.b⟩
+  rw [xrun_ops] at h1
+  exact ⟨by have := h1.cur; rw [h2.1] at this; exact this, by have := h1.inv; rw [h2.2] at this; exact this, h1.nodup⟩
+
+theorem USim.congr {s : XW} {base c c' : List Quad} (h : USim s base c) (e : SetEq c c') : USim s base c' :=
+  ⟨h.cur.trans e, h.inv, h.nodup⟩
+
+theorem mem_foldl_sinsert (qs : List Quad) : ∀ (c : List Quad) (x : Quad), x ∈ qs.foldl sinsert c ↔ x ∈ qs ∨ x ∈ c := by
+  induction qs with
+  | nil => intro c x; simp
+  | cons q qs ih =>
+    intro c x
+    simp only [List.foldl_cons, ih, mem_sinsert, List.mem_cons]
+    constructor
+    · rintro (h | h | h)
+      · exact Or.inl (Or.inr h)
+      · exact Or.inl (Or.inl h)
+      · exact Or.inr h
+    · rintro ((h | h) | h)
+      · exact Or.inr (Or.inl h)
+      · exact Or.inl h
+      · exact Or.inr (Or.inr h)
+
+theorem usim_step {s : XW} {sp : SpecU} (h : USim s sp.base sp.cur) (c : UCmd) (hc : c.wellNamed = true) :
+    USim (s.ucmd c) (sp.step c).base (sp.step c).cur := by
+  cases c with
+  | u o =>
+    have hwn : ∀ x ∈ o.expandAt s.m.cur, x.wellNamed = true := by
+      intro x hx
+      cases o with
+      | parse qs => simp only [UOp.expandAt, List.mem_map] at hx; obtain ⟨q, _, rfl⟩ := hx; rfl
+      | insertData qs => simp only [UOp.expandAt, List.mem_map] at hx; obtain ⟨q, _, rfl⟩ := hx; rfl
+      | deleteData qs => simp only [UOp.expandAt, List.mem_map] at hx; obtain ⟨q, _, rfl⟩ := hx; exact pat_wellNamed q
+      | deleteWhere p => simp only [UOp.expandAt, List.mem_map] at hx; obtain ⟨q, _, rfl⟩ := hx; exact pat_wellNamed q
+      | clear g =>
+        simp only [UOp.expandAt, List.mem_singleton] at hx
+        subst hx
+        simp only [UCmd.wellNamed] at hc
+        simp only [XOp.wellNamed, Pat.wellNamed, Pat.ground?, Option.isSome_none, Bool.false_or]
+        exact hc
+    have h1 := usim_ops h (o.expandAt s.m.cur) hwn
+    have hb : (sp.step (.u o)).base = sp.base := by cases o <;> rfl
+    rw [hb]
+    refine USim.congr (c := (o.expandAt s.m.cur).foldl curStepX sp.cur) h1 ?_
+    intro x
+    cases o with
+    | parse qs => simp only [UOp.expandAt, SpecU.step, mem_fold_adds, mem_foldl_sinsert]
+    | insertData qs => simp only [UOp.expandAt, SpecU.step, mem_fold_adds, mem_foldl_sinsert]
+    | deleteData qs =>
+      simp only [UOp.expandAt, SpecU.step, mem_fold_removes, List.mem_filter, decide_eq_true_eq]
+    | deleteWhere p =>
+      simp only [UOp.expandAt, SpecU.step, mem_fold_removes, List.mem_filter, Bool.not_eq_true', not_and,
+        Bool.not_eq_true]
+      constructor
+      · rintro ⟨h2, h3⟩; exact ⟨h2, h3 ((h.cur x).mpr h2)⟩
+      · rintro ⟨h2, h3⟩; exact ⟨h2, fun _ => h3⟩
+    | clear g =>
+      obtain ⟨a, b, d, g'⟩ := x
+      simp [UOp.expandAt, SpecU.step, curStepX, Pat.matches, matchPos, Quad.graph]
+  | g o => exact usim_ops h o.expand (expand_wellNamed o (by simpa only [UCmd.wellNamed] using hc))
+  | commit =>
+    refine ⟨h.cur, ?_, h.nodup⟩
+    simp only [XW.ucmd, XW.commit, SpecU.step]
+    exact (inv_begin s.m.cur).congr_init h.cur
+  | rollback =>
+    have hr : SetEq (s.ucmd .rollback).m.cur sp.base := by
+      simp only [XW.ucmd, XW.rollback, replayMem_cur]
+      exact replay_restores h.inv
+    refine ⟨hr, ?_, ?_⟩
+    · simp only [SpecU.step]
+      exact (inv_begin sp.base).congr hr.symm
+    · simp only [XW.ucmd, XW.rollback, replayMem_cur]
+      exact nodup_replay' _ _ h.nodup
+
+theorem update_history_refines_spec : Statement_update_history_refines_spec := by
+  intro m0 cs hnd hw
+  have key : ∀ (cs : List UCmd) (s : XW) (sp : SpecU), USim s sp.base sp.cur → (∀ c ∈ cs, c.wellNamed = true) →
+      USim (s.urun cs) (sp.run cs).base (sp.run cs).cur := by
+    intro cs
+    induction cs with
+    | nil => intro s sp h _; exact h
+    | cons c cs ih =>
+      intro s sp h hw
+      exact ih _ _ (usim_step h c (hw c (by simp))) (fun c' hc' => hw c' (by simp [hc']))
+  exact (key cs ⟨m0, []⟩ ⟨m0.cur, m0.cur⟩ ⟨SetEq.refl _, inv_begin _, hnd⟩ hw).cur
+
+/-- non-vacuity: a parse, a DELETE WHERE that meets a parsed and an initial triple, a commit, a CLEAR, a rollback -/
+example :
+    (XW.urun ⟨{ cur := [(1, 2, 3, 9), (4, 2, 3, 8)] }, []⟩
+      [.u (.parse [(1, 2, 5, 9), (6, 6, 6, 9)]), .u (.deleteWhere (some 1, none, none, some 9)), .commit,
+       .u (.clear 9), .u (.insertData [(7, 7, 7, 9)]), .rollback]).m.cur = [(4, 2, 3, 8), (6, 6, 6, 9)] := by decide
+
 end RV.C18
